@@ -136,6 +136,10 @@ def _one(item):
         xg = interpolation.XGrid(xin, log=is_log)
         if as_f32:
             hit("float32_input_grid")
+        # the grid object owns its nodes: editing the caller's array afterwards must not reach it
+        if isinstance(xin, np.ndarray):
+            xin *= 0.5
+            hit("caller_array_edited_after_construction")
         if not np.array_equal(np.asarray(xg.raw, dtype=float), xs):
             fail(f"C34/construct/{mode}/nodes", f"XGrid nodes {np.asarray(xg.raw)[:4]}... are not the sorted input nodes {xs[:4]}...")
             return rec
